@@ -31,6 +31,7 @@ REGISTRY = {
     'classes':  lambda repo, sd, canary=False: classes.build(repo, sd, canary=canary),
     'stage1':   lambda repo, sd, canary=False: classes.build_stage1(repo, sd, canary=canary),
     'exprfrom': lambda repo, sd, canary=False: elim.build_whole(repo, sd, canary=canary),
+    'clusterfrom': lambda repo, sd, canary=False: classes.build_cluster_from(repo, sd, canary=canary),
     'trie':     lambda repo, sd, canary=False: dfa.build_trie(repo, sd, canary=canary),
     'wasm':     lambda repo, sd, canary=False: bindings.build_wasm(repo, sd, canary=canary),
     'python':   lambda repo, sd, canary=False: bindings.build_python(repo, sd, canary=canary),
@@ -42,18 +43,18 @@ PROP_UNITS = {
     'C02': ['expr', 'elim', 'matrix', 'regexp', 'dfa', 'minimize', 'gates', 'render', 'format', 'charcount', 'charclass', 'exprfrom'],
     'C03': ['classify', 'gates', 'trie', 'atom', 'classes', 'stage1'],
     'C04': ['caseconv', 'regexp', 'render', 'builder'],
-    'C05': ['trie', 'render', 'rep', 'splice', 'repeats', 'charcount', 'minimize', 'atom', 'stage1'],
-    'C06': ['render', 'format', 'trie', 'rep', 'nested', 'indent'],
-    'C07': ['expr', 'elim', 'matrix', 'regexp', 'builder', 'split', 'escaper', 'caseconv', 'rep', 'splice', 'gates', 'render', 'format', 'order', 'dfa', 'minimize', 'trie', 'cli', 'escape', 'classify', 'nested', 'indent', 'charcount', 'repeats', 'charclass', 'atom', 'classes', 'stage1', 'exprfrom'],
+    'C05': ['trie', 'render', 'rep', 'splice', 'repeats', 'charcount', 'minimize', 'atom', 'stage1', 'clusterfrom'],
+    'C06': ['render', 'format', 'trie', 'rep', 'nested', 'indent', 'clusterfrom'],
+    'C07': ['expr', 'elim', 'matrix', 'regexp', 'builder', 'split', 'escaper', 'caseconv', 'rep', 'splice', 'gates', 'render', 'format', 'order', 'dfa', 'minimize', 'trie', 'cli', 'escape', 'classify', 'nested', 'indent', 'charcount', 'repeats', 'charclass', 'atom', 'classes', 'stage1', 'exprfrom', 'clusterfrom'],
     'C08': ['render', 'expr', 'regexp', 'format', 'indent'],
     'C09': ['tables', 'classify', 'classes'],
     'C10': ['builder', 'regexp', 'gates', 'order', 'dfa'],
     'C11': ['escape', 'builder', 'format', 'nested', 'split'],
     'C12': ['cli', 'gates', 'builder'],
-    'C13': ['rep', 'splice', 'repeats', 'builder', 'render', 'trie', 'atom', 'stage1'],
+    'C13': ['rep', 'splice', 'repeats', 'builder', 'render', 'trie', 'atom', 'stage1', 'clusterfrom'],
     'C14': ['python'],
     'C15': ['render', 'indent'],
-    'C16': ['expr', 'elim', 'matrix', 'regexp', 'dfa', 'dfa_kf', 'minimize', 'trie', 'render', 'format', 'charcount', 'repeats', 'charclass', 'stage1', 'exprfrom'],
+    'C16': ['expr', 'elim', 'matrix', 'regexp', 'dfa', 'dfa_kf', 'minimize', 'trie', 'render', 'format', 'charcount', 'repeats', 'charclass', 'stage1', 'exprfrom', 'clusterfrom'],
     'C17': ['wasm'],
 }
 # dfa_kf holds exactly the known-finding clause (its canary would be redundant with dfa's); tables has no function with a context
